@@ -498,6 +498,7 @@ class W4World(World):
             outcome = 'exc:' + type(e).__name__
         self.stats.inc('ops.%s.%s' % (call, 'ok' if outcome == 'ok' else 'raised'))
         self.check_history(call)
+        self.check_props_arg(call)
         if not self.pending and s['op'] != 'import':
             self.check_data_independence(s, outcome)
         self.mutations += 1
@@ -588,13 +589,28 @@ class W4World(World):
                       '%r vs %r' % (call, i, (first[i][0] if i < len(first) else None),
                                     (second[i][0] if i < len(second) else None)))
 
+    def props_arg(self, s):
+        """the caller's property dictionary: a fresh copy goes in, and it must come out as it went in (what the caller
+        stores the next time with the same dictionary is still what the caller wrote)"""
+        c = dict(s['props'])
+        self._given = (c, dict(s['props']))
+        return c
+
+    def check_props_arg(self, call):
+        g = getattr(self, '_given', None)
+        self._given = None
+        if g and (canon(g[0]) != canon(g[1])):
+            self.flag('stmt_value_not_in_text', {'call': call, 'symptom': 'argument_rewritten'},
+                      '%s rewrote the property dictionary it was given (was %s, is %s): storing it again sends other '
+                      'text to the driver' % (call, canon(g[1])[:200], canon(g[0])[:200]))
+
     def invoke(self, s):
         from fim.graph.slices.neo4j_asm import Neo4jASM
         from fim.graph.resources.neo4j_cbm import Neo4jCBMGraph
         call = s['call']
         g = self.graph(s['gid'])
         if call == 'add_node':
-            g.add_node(node_id=s['node'], label=s['label'], props=dict(s['props']))
+            g.add_node(node_id=s['node'], label=s['label'], props=self.props_arg(s))
         elif call == 'get_node_properties':
             g.get_node_properties(node_id=s['node'])
         elif call == 'update_node_property':
@@ -608,9 +624,9 @@ class W4World(World):
         elif call == 'get_node_json_property_as_object':
             g.get_node_json_property_as_object(node_id=s['node'], prop_name=s['pname'])
         elif call == 'update_node_properties':
-            g.update_node_properties(node_id=s['node'], props=dict(s['props']))
+            g.update_node_properties(node_id=s['node'], props=self.props_arg(s))
         elif call == 'add_link':
-            g.add_link(node_a=s['a'], rel=s['rel'], node_b=s['b'], props=dict(s['props']) or None)
+            g.add_link(node_a=s['a'], rel=s['rel'], node_b=s['b'], props=self.props_arg(s) or None)
         elif call == 'get_link_properties':
             g.get_link_properties(node_a=s['a'], node_b=s['b'])
         elif call == 'update_link_property':
@@ -619,7 +635,7 @@ class W4World(World):
             g.unset_link_property(node_a=s['a'], node_b=s['b'], kind=s['rel'], prop_name=s['pname'])
         elif call == 'update_link_properties':
             g.update_link_properties(node_a=s['a'], node_b=s['b'], kind=s['rel'],
-                                     props=dict(s['props']) or {'Name': s['pval']})
+                                     props=self.props_arg(s) or {'Name': s['pval']})
         elif call == 'update_nodes_property':
             g.update_nodes_property(prop_name=s['pname'], prop_val=s['pval'])
         elif call == 'list_all_node_ids':
@@ -673,7 +689,7 @@ class W4World(World):
                     c.set_model(s['model'])
                     comps.add_device(c)
             Neo4jCBMGraph(graph_id=s['gid'], importer=self.imp).get_matching_nodes_with_components(
-                label=s['label'], props=dict(s['props']), comps=comps)
+                label=s['label'], props=self.props_arg(s), comps=comps)
         elif call == 'get_delegations':
             from fim.slivers.delegations import DelegationType
             Neo4jCBMGraph(graph_id=s['gid'], importer=self.imp).get_delegations(
